@@ -921,6 +921,23 @@ enum OptimizeMode {
     On(OptimizeOptions),
 }
 
+/// Verification hooks: access to the graph of a loaded model, and
+/// construction of a model from a graph.
+#[cfg(rten_verif)]
+impl Model {
+    pub fn verif_graph(&self) -> &Graph {
+        &self.graph
+    }
+
+    pub fn verif_from_graph(graph: Graph) -> Model {
+        Model {
+            graph,
+            metadata: ModelMetadata::default(),
+            weight_cache: WeightCache::new(),
+        }
+    }
+}
+
 #[cfg(test)]
 mod tests {
     use rten_tensor::prelude::*;
